@@ -3,6 +3,7 @@ package c12
 import (
 	"encoding/json"
 	"fmt"
+	"os"
 	"regexp"
 	"strings"
 	"testing"
@@ -33,7 +34,7 @@ func judgeSheetCase(c SheetCase) vdrv.Verdict {
 		devs = cssgen.Devices[:1]
 	}
 	v := judgeSheet(c.CSS, c.Cfg, c.Single, devs)
-	if !v.OK {
+	if !v.OK && os.Getenv("VERIF_C12_NOKNOWN") == "" { // the variable is a debugging aid for trying out fixes
 		v.Known = knownSignature(c)
 	}
 	v.Classes = dedupe0(v.Classes)
@@ -412,6 +413,9 @@ func genOpts(rt *rapid.T) cssgen.Opts {
 		Container:  b("o.container", 20),
 		Supports:   b("o.supports", 30),
 		Junk:       b("o.junk", 20),
+		// the two classes below are listed findings: generated rarely, so that the search goes on behind them
+		Logical:         b("o.logical", 6),
+		DeclAfterNested: b("o.declafter", 6),
 		MaxRules:   rapid.IntRange(2, 6).Draw(rt, "o.maxrules"),
 	}
 }
@@ -442,6 +446,14 @@ func knownSignature(c SheetCase) string {
 	// C12-inset-auto-not-lowered: inset is unsupported and an inset shorthand has a component that is not a plain number/dimension
 	if un["inset-property"] && reInsetNonNumeric.MatchString(c.CSS) {
 		return "C12-inset-auto-not-lowered"
+	}
+	// C12-box-merge-logical: minify-syntax box collapsing moves physical longhands across a logical longhand of the same family
+	if c.Cfg.MinifySyntax && reLogicalBox.MatchString(c.CSS) {
+		return "C12-box-merge-logical"
+	}
+	// C12-decl-after-nested-rule: a declaration follows a nested rule in the same block (hoisted by esbuild)
+	if hasDeclAfterNestedRule(c.CSS) {
+		return "C12-decl-after-nested-rule"
 	}
 	// C12-box-merge-reorders: minify-syntax merges box longhands into a shorthand placed before a retained declaration with an "unsafe" unit
 	if c.Cfg.MinifySyntax && reBoxUnsafeUnit.MatchString(c.CSS) {
@@ -496,6 +508,34 @@ func hasMixedParentWithNested(css string) bool {
 		items[i] = cssref.Item{Rule: r}
 	}
 	walk(items, nil)
+	return found
+}
+
+var reLogicalBox = regexp.MustCompile(`(margin|padding|inset)-(block|inline)|border-(start|end)-(start|end)-radius`)
+
+// hasDeclAfterNestedRule: some style rule (or nested group rule) has a declaration after a nested rule.
+func hasDeclAfterNestedRule(css string) bool {
+	found := false
+	var walk func(items []cssref.Item, inStyle bool)
+	walk = func(items []cssref.Item, inStyle bool) {
+		seenRule := false
+		for _, it := range items {
+			if it.Decl != nil {
+				if seenRule && inStyle {
+					found = true
+				}
+				continue
+			}
+			seenRule = true
+			walk(it.Rule.Items, inStyle || it.Rule.At == "")
+		}
+	}
+	sh := cssref.Parse(css)
+	items := make([]cssref.Item, len(sh.Rules))
+	for i, r := range sh.Rules {
+		items[i] = cssref.Item{Rule: r}
+	}
+	walk(items, false)
 	return found
 }
 
